@@ -1741,6 +1741,13 @@ func (db *DB) Dump(w io.Writer, tableNames ...string) error {
 	defer conn.Close()
 	ctx := context.Background()
 
+	// Read everything inside a single read transaction, so that the dump reflects
+	// the database at one point in time even if writes are in flight.
+	if _, err := conn.ExecContext(ctx, "BEGIN"); err != nil {
+		return err
+	}
+	defer conn.ExecContext(ctx, "ROLLBACK")
+
 	// Convenience function to convert string query to protobuf.
 	commReq := func(query string) *command.Request {
 		return &command.Request{
